@@ -17,7 +17,7 @@ from checks import fsfault as F
 PROP = 'C04'
 LEVEL = 'fault_enumeration'
 SHARDS = {'quick': 4, 'thorough': 16}
-BUDGET_S = {'quick': 45, 'thorough': 420}
+BUDGET_S = {'quick': 150, 'thorough': 420}
 RULE = ('scenarios = body write pattern x text/binary x destination absent/present x overwrite x '
         'explicit part_file x file_perms; for each scenario the save is crashed immediately before each '
         'of its file-system events (open/chmod/write/flush/fsync/close/rename/link/unlink...) and after '
@@ -241,22 +241,28 @@ def run(ctx):
     fu = common.load('fileutils')
     st = ctx.stats
     r = ctx.rng('scn')
-    core, extra = scenarios(r, {'quick': 25, 'thorough': 300}[ctx.tier], ctx)
+    core, extra = scenarios(r, {'quick': 8, 'thorough': 300}[ctx.tier], ctx)
     mine = [s for i, s in enumerate(core) if i % ctx.nshards == ctx.shard] + extra
 
     def viol(sig, what, wit):
         st.violation(sig, what, wit)
     have_strace = F.strace_available()
     st.counters['strace_available'] = int(have_strace)
-    nA = {'quick': 3, 'thorough': 20}[ctx.tier]
+    nA = {'quick': 1, 'thorough': 20}[ctx.tier]
     for i, scn in enumerate(mine):
         if ctx.out_of_time():
             st.notes.append('stopped after %d/%d scenarios (time budget)' % (i, len(mine)))
             break
         st.count('scenarios_B')
         check_scenario_B(fu, scn, st, viol)
-        if have_strace and scn.get('raise_at') is None and i % max(1, len(core) // ctx.nshards // nA) == 0 \
-                and st.counters.get('scenarios_A_strace', 0) < nA:
+    # layer A afterwards (each strace run costs an interpreter start-up): a spread of the systematic scenarios
+    if have_strace:
+        cands = [s for s in mine if s.get('raise_at') is None]
+        step = max(1, len(cands) // nA)
+        for scn in cands[ctx.shard % step::step][:nA]:
+            if ctx.out_of_time():
+                st.notes.append('strace layer cut short by the time budget')
+                break
             st.count('scenarios_A_strace')
             check_scenario_A(scn, st, viol)
 
